@@ -73,8 +73,8 @@ CLAIMED.update({
                 "resolved (forward references, labels counted over the whole source), independence of the segment order, the exact "
                 "accepted/rejected directive shapes, typed error outcomes, and the help page's example programs by evaluation. Tied to "
                 "the code by comparing from_integer on all 2^16 words and generated sources pushed through the real tokenizer.",
-        "note": NOTE_COMMON + "pyparsing tokenisation is outside the model: the harness feeds the model the real tokenizer's output "
-                "through a fail-closed converter. Python's 4300-digit int() limit is part of the model (toy_value).",
+        "note": NOTE_COMMON + "The assembler theorems of Props/C19.v are stated after tokenisation (the harness feeds the model the real tokenizer's output "
+                "through a fail-closed converter); the pyparsing grammar itself is modelled by Model/ToyLex.v (below). Python's 4300-digit int() limit is part of the model (toy_value).",
         "technique": TECH,
     },
 })
@@ -227,10 +227,10 @@ CLAIMED.update({
                 "before it); instruction k is instantiated at address 4k; branch/jal operands as label, label+offset or number give the "
                 "stated immediates (branch numbers relative, jal numbers absolute, odd numbers and unknown labels rejected with the "
                 "line); the operand-to-field mapping of every class; ABI and xN names denote the same registers; nop/mv expansions. "
-                "pyparsing is outside the model: the harness feeds the model the REAL tokenizer's output. The implementation is compared "
+                "The model's assembler is fed the REAL tokenizer's output; the pyparsing grammar itself is modelled by Model/Lex.v (see the note). The implementation is compared "
                 "with the model (every field and printed form of every instruction, lower memory, error class and line), with an "
                 "independent reference assembler written from the documented syntax, and across three random spellings of each program.",
-        "note": NOTE_COMMON + "Spelling independence (case, blanks, comments, number bases) is established by the metamorphic correspondence, not proved.",
+        "note": NOTE_COMMON + "Spelling independence (case, blanks, comments, number bases, register names) is proved for the MODELLED tokenizer + assembler (below) and checked on the implementation by the metamorphic correspondence.",
         "technique": TECH,
     },
     "C05": {
@@ -253,11 +253,11 @@ CLAIMED.update({
                 "that a listing re-assembles to itself. The printer is tied to __repr__ by string equality on operand grids; the round trip "
                 "is checked on the implementation through the real tokenizer and assembler (print, load at the same address, compare class, "
                 "fields and printed form), and listings of random programs are re-assembled.",
-        "note": NOTE_COMMON + "Tokenisation of the printed text is performed by the real tokenizer in the harness, not modelled.",
+        "note": NOTE_COMMON + "In the harness the printed text is tokenised by the real tokenizer; inside the model the loop is closed through the modelled grammar (below).",
         "technique": TECH,
     },
     "C15": {
-        "text": "Proof (partial: pyparsing is outside any model). Props/C15.v proves for the RISC-V assembler model, and Props/C19.v for the TOY "
+        "text": "Proof about the models (both tokenizers are modelled, see the note; that the REAL pyparsing code raises nothing else is carried by correspondence on arbitrary text). Props/C15.v proves for the RISC-V assembler model, and Props/C19.v for the TOY "
                 "one, that for EVERY token list the outcome is success, a parser error whose line number is one of the input's lines, or "
                 "the memory-size/address error, and that no uncaught exception is possible for token shapes the grammar produces; that "
                 "every literal int() rejects is reported as a syntax error of its line (defect D3, fixed); and that every run-time fault "
@@ -266,7 +266,7 @@ CLAIMED.update({
                 "inputs: grammar-derived programs with injected faults, token soups, byte soups with Unicode line separators, for both "
                 "assemblers: exception class in the allowed set, line number within the text, no hang; plus faulting programs in both "
                 "modes compared with the model.",
-        "note": NOTE_COMMON + "'No other exception for any text' is a universal negative about pyparsing + glue that is sampled, not proved.",
+        "note": NOTE_COMMON + "'No other exception for any text' is proved of the modelled lexers + assemblers; about the real pyparsing code + glue it is a universal negative that is sampled (differentially against the model on arbitrary text), not proved.",
         "technique": "Coq proof of typed outcomes of the assembler models + generated malformed inputs on the implementation",
     },
 })
